@@ -107,7 +107,7 @@ class _Rec(Plugin):
         return self.ORDER
 
     def shutdown(self):
-        _rec(self.class_name, 'shutdown')
+        _rec(self.class_name, 'shutdown', {'instance': id(self)})
         if self.DEREGISTER and self.config is not None:
             # a plugin that takes itself off the agent's plugin list when it is told to stop
             try:
